@@ -3,7 +3,9 @@ from .pdb import strip, walk, loc, ancestors
 from .terms import Ctx, num, show, lin_add, lin_sub, lin_parts
 from .common import (P, F, SIZE, LEN, effects, callee_path, call_args, ctor_summary, in_macro, OP_OF_TRAIT, forwards_to, canon_atom,
                      armed_bounds, effective_guards, is_zero_term, norm_cmp, diverges, GE, single_expr_body)
-from .guards import for_range, facts, cond_atoms
+from .guards import facts, cond_atoms
+from .guards import for_range as raw_for_range
+from .common import for_range_total as for_range
 from .algebra import SymExec, NotStraight
 
 LEVEL = "other"
